@@ -77,6 +77,7 @@ def base_patterns(n=320):
         "zeros": bytes(n), "ones": b"\xff" * n, "a5": bytes([0xA5]) * n, "5a": bytes([0x5A]) * n,
         "index": bytes((i + 1) & 0xFF for i in range(n)), "small": bytes((i % 3) + 1 for i in range(n)),
         "ascii": bytes(0x41 + (i % 26) for i in range(n)), "x2": bytes([0x02]) * n,
+        "A-e-acute": (b"A\xc3\xa9" * n)[:n],
     }
 
 
